@@ -75,7 +75,8 @@ def upload_scenarios(draw):
           "settings": settings, "wu_mode": draw(st.sampled_from(["auto", "auto", "tiny", "stream_first", "conn_first", "lazy"])),
           "wu_inc": draw(st.sampled_from([1, 7, 1000, 16384, 50000])), "script": [],
           "choices": draw(st.lists(st.integers(0, 15), max_size=150)), "segs": draw(st.lists(st.sampled_from([0, 0, 9, 13, 26, 100]), max_size=4)),
-          "runtime": draw(st.sampled_from(["asyncio", "asyncio", "trio"]))}
+          "runtime": draw(st.sampled_from(["asyncio", "asyncio", "trio"])),
+          "bursts": draw(st.sampled_from([[], [], [], [1], [0, 1], [2, 0, 1]]))}
     if draw(st.integers(0, 3)) == 0:
         sc["script"].append({"when": {"event": "data", "n": draw(st.integers(0, 3))}, "do": [{"settings": {"4": draw(st.sampled_from([0, 1, 1000, W, 200000]))}}]})
     return sc
@@ -161,7 +162,8 @@ def execute_uploads(sc) -> Outcome:
 
     from ..trio_run import make_run
 
-    r = make_run(sc.get("runtime"))(world, pool_cfg, callers, choices=sc["choices"], segs=sc["segs"], epilogue=epilogue, step_limit=20000)
+    r = make_run(sc.get("runtime"))(world, pool_cfg, callers, choices=sc["choices"], segs=sc["segs"], epilogue=epilogue, step_limit=20000,
+                                    bursts=sc.get("bursts", ()))
     r.run()
     desc = f"{sc['kind']} settings={sc['settings']} wu={sc['wu_mode']}/{sc['wu_inc']} uploads={[(u['size'], 'bytes' if u['as_bytes'] else u['chunks']) for u in sc['uploads']]} script={sc.get('script')}"
     base = dict(conn=sc["kind"], layer="uploads", uploads=len(sc["uploads"]))
